@@ -48,6 +48,13 @@ impl Rule for RegexRule {
 impl RuleMaker for RegexRule {
     fn make(expression: &str) -> Result<Box<dyn Rule>> {
         let expression = cleanup_unrecognized_escape_sequences(expression);
+        // what is a regular expression as it stands is used as it stands: the
+        // two compensations for brackets used as plain text are for expressions
+        // that are not (they change the meaning of some that are: `[[:digit:]]`,
+        // `[a]b]`)
+        if let Ok(regex) = ByteRegex::new(&format!("^(?:{})$", expression)) {
+            return Ok(Box::new(RegexRule(expression, regex)));
+        }
         let expression = escape_misused_repetition_quantifier(&expression);
         let expression = escape_misused_character_class(&expression);
         // group the expression, so that the anchors apply to all of it and
